@@ -944,6 +944,11 @@ def evaluate(t, env, memo=None):
         r = t.v
     elif isinstance(t, Ext):
         r = t
+    elif isinstance(t, Ref):
+        hook = env.get("__ref__")
+        if hook is None:
+            raise CannotEval(repr(t)[:120])
+        r = hook(t, env)
     elif isinstance(t, Lin):
         r = t.const
         for x, c in t.terms:
@@ -1032,6 +1037,10 @@ def evaluate(t, env, memo=None):
                 raise
             except Exception as e:
                 raise CannotEval("%s raises %s" % (repr(t)[:80], type(e).__name__))
+        elif op == "sorted" and len(t.args) == 1:
+            r = sorted(evaluate(t.args[0], env, memo))
+        elif op == "reversed" and len(t.args) == 1:
+            r = list(reversed(evaluate(t.args[0], env, memo)))
         elif op in ("list", "tuple_of") and len(t.args) == 1:
             r = list(evaluate(t.args[0], env, memo))
             if op == "tuple_of":
@@ -1042,10 +1051,10 @@ def evaluate(t, env, memo=None):
         elif op == "getslice" and len(t.args) == 3:
             b, lo, hi = (evaluate(a, env, memo) for a in t.args)
             r = b[lo:hi]
-        elif op in ("elem",) and len(t.args) == 2 and not isinstance(t.args[0], Ref):
+        elif op in ("elem",) and len(t.args) == 2 and (not isinstance(t.args[0], Ref) or env.get("__ref__")):
             b, i = (evaluate(a, env, memo) for a in t.args)
             r = b[i]
-        elif op == "getitem" and len(t.args) == 2 and not isinstance(t.args[0], Ref):
+        elif op == "getitem" and len(t.args) == 2 and (not isinstance(t.args[0], Ref) or env.get("__ref__")):
             b, i = (evaluate(a, env, memo) for a in t.args)
             r = b[i]
         elif op == "int" and len(t.args) == 1:
